@@ -1338,7 +1338,10 @@ pub fn gen_family(g: &mut Gen, family: &str, per_form: usize, forms: &std::colle
                     }
                     let use_mem = has_mem && (!has_reg || n % 2 == 1);
                     let shape = MEM_SHAPES[g.rng.gen_range(0..MEM_SHAPES.len())];
-                    let seg = if g.rng.gen_bool(0.06) { Register::GS } else if g.rng.gen_bool(0.03) { Register::FS } else { Register::None };
+                    // segment bases: now and then for data operands, often for the memory operands of control transfers and stack
+                    // instructions (jmp fs:[..], push gs:[..]: few forms, and no other family reaches them)
+                    let (pg, pf) = if family == "data" { (0.06, 0.03) } else { (0.15, 0.15) };
+                    let seg = if g.rng.gen_bool(pg) { Register::GS } else if g.rng.gen_bool(pf) { Register::FS } else { Register::None };
                     // the 0x67 address-size prefix also outside the EA family (index-only and absolute forms wrap at 4 GiB)
                     let asz32 = family == "data" && use_mem && seg == Register::None && g.rng.gen_bool(0.08);
                     if let Some(c) = g.make(code, family, use_mem, shape, Place::Rw, asz32, seg, pad) {
